@@ -95,8 +95,11 @@ def classify(run, cases, meta, rejects):
                 and [list(h) for h in exp.get("hits", [])] == o["alt"] and o["alt"] != o["hits"]:
             classes[(ci, qi, oi)] = "wrapping-replace-unscaled"
     # ... the same for the matched terms of a limited search (a pruned branch no longer reports its term)
+    # and for the scores of its hits (a pruned branch no longer adds its part)
     mt = [(ci, qi, oi) for ci, qi, oi, exp in rejects if (ci, qi, oi) not in classes
-          and cases[ci]["qs"][qi]["obs"][oi]["kind"] == "matchedterms" and "alt" in cases[ci]["qs"][qi]["obs"][oi]]
+          and cases[ci]["qs"][qi]["obs"][oi]["kind"] in ("matchedterms", "scoresub")
+          and "alt" in cases[ci]["qs"][qi]["obs"][oi]
+          and cases[ci]["qs"][qi]["obs"][oi]["alt"] != cases[ci]["qs"][qi]["obs"][oi]["hits"]]
     if mt:
         acases = [{"idx": cases[ci]["idx"], "qs": [{"q": cases[ci]["qs"][qi]["q"], "obs": [
             dict(cases[ci]["qs"][qi]["obs"][oi], hits=cases[ci]["qs"][qi]["obs"][oi]["alt"])]}]} for ci, qi, oi in mt]
@@ -137,7 +140,7 @@ def report(run, pid, cases, meta, rejects, check):
                     "index_docs": len(cases[0]["idx"]["docs"]), "history": meta[0]["plan"]})
 
 
-def big_cases(run, rng, nworlds):
+def big_cases(run, rng, nworlds, cmp="members", paths=("docs_for_query", "query.docs", "unlimited", "unscored")):
     """One large, sparse segment (more than one 2048-document window of the array-based union matcher):
     a few dozen documents carry terms, the rest are empty."""
     from whoosh import scoring
@@ -173,7 +176,7 @@ def big_cases(run, rng, nworlds):
                            {"op": "wildcard", "f": "body", "t": [-1], "b4": 4},
                            {"op": "andnot", "a": {"op": "or", "kids": [T(1), T(2), T(3)], "b4": 4}, "b": T(2)}):
                     q = world.to_query(aq)
-                    obs = qobs.obs_paths(s, q, ("docs_for_query", "query.docs", "unlimited", "unscored"), cmp="members")
+                    obs = qobs.obs_paths(s, q, paths, cmp=cmp)
                     qs.append({"q": aq, "obs": obs})
                     run.count(len(obs))
                 cases.append({"idx": idx, "qs": qs})
